@@ -77,6 +77,16 @@ def run(ctx):
         rng.shuffle(same)
         rng.shuffle(cross)
         hs = same[: 4200] + cross[: 1400]
+    # three-step histories within one cache family (a wrapper switched away and back, a cache hit
+    # after an uncached call with other arguments): all of them for the trees, a sample for plotting
+    tree3 = gc.generate(ctx, ["trees", "norec"], 3, [], "all histories of three tree requests on one grid", handles=(1, 2), base=(1, 2), workers=8)
+    tree3 = [h for h in tree3 if all(st[1] == 1 for st in h)]
+    plot3 = gc.generate(ctx, ["plot", "data"], 3, [], "all histories of three plotting conversions on one grid", handles=(1,), base=(1,), workers=8)
+    rng.shuffle(plot3)
+    if not thorough:
+        plot3 = plot3[:1200]
+    ctx.note("three_step_histories", {"trees": len(tree3), "plot": len(plot3)})
+    hs = hs + tree3 + plot3
     long_hs = gc.generate(
         ctx,
         READ_FAMS + ["flags", "metrics"],
